@@ -902,6 +902,89 @@ def _file_strings(ctx, reqs, pending):
             pending.append((case, ('ok', sorted(_ds_pairs(c2)))))
 
 
+# ------------------------------------------------------------------ 7b. copy.copy and keys mutated after insertion
+def _shallow_copies(ctx, reqs, pending):
+    """copy.copy (pydicom's shallow copy: a new object on the SAME element table), deepcopy, assignments and deletions through any of
+    the objects; what every object reads at the end is compared with the model.  Oracle: a deep copy and its source never influence
+    each other; a shallow copy is a distinct CodedConcept equal to its source (that it shares the content is the model's statement,
+    theorem shallow_copy_shares_content, not a demand of the property)."""
+    import copy as _copy
+    from highdicom.sr.coding import CodedConcept
+    for idx in range(ctx.n(60, 600)):
+        r = ctx.rng('shallow', idx)
+        c0 = CodedConcept(r.choice(STORE_VALUES), r.choice(STORE_SCHEMES), r.choice(STORE_MEANINGS[:3]), r.choice(STORE_VERSIONS))
+        ds0 = _ds_pairs(c0)
+        objs = [c0]
+        table = [0]              # oracle bookkeeping: which objects were made by deepcopy of which (fresh table) - by construction
+        ops = []
+        fail = None
+        for step in range(r.choice([2, 4, 6, 9])):
+            what = r.choice(['shallow', 'deep', 'set', 'set', 'del'])
+            o = r.randrange(len(objs))
+            before = [sorted(_ds_pairs(x)) for x in objs]
+            if what in ('shallow', 'deep'):
+                new = _copy.copy(objs[o]) if what == 'shallow' else _copy.deepcopy(objs[o])
+                readable = 'CodeMeaning' in objs[o] and 'CodingSchemeDesignator' in objs[o]
+                st_eq, eq = _try(lambda: new == objs[o]) if readable else ('ok', True)
+                if new is objs[o] or not isinstance(new, CodedConcept) or sorted(_ds_pairs(new)) != before[o] or st_eq != 'ok' or not eq:
+                    fail = fail or f'step {step}: {what} copy is not a distinct, equal CodedConcept'
+                objs.append(new)
+                table.append(table[o] if what == 'shallow' else len(objs) - 1)
+                ops.append({'op': what, 'o': o})
+            elif what == 'set':
+                kw = r.choice(MUT_KWS)
+                val = {'CodeMeaning': 'changed', 'CodingSchemeDesignator': '99HDV', 'CodingSchemeVersion': '3.1'}.get(kw) or r.choice(STORE_VALUES)
+                setattr(objs[o], kw, val)
+                ops.append({'op': 'set', 'o': o, 'k': kw, 'v': val})
+            else:
+                kw = r.choice(MUT_KWS)
+                if kw not in objs[o]:
+                    continue
+                delattr(objs[o], kw)
+                ops.append({'op': 'del', 'o': o, 'k': kw})
+            if what in ('set', 'del'):
+                for i, b in enumerate(before):
+                    if table[i] != table[o] and sorted(_ds_pairs(objs[i])) != b:
+                        fail = fail or f'step {step}: writing through object {o} changed object {i}, a deep copy / the source of a deep copy'
+        case = {'what': 'shallow-copy', 'idx': idx, 'ds': ds0, 'ops': ops}
+        ctx.case(sample=case if idx % 31 == 0 else None, nontrivial_key=('shallow', tuple(o['op'] for o in ops)[:6]),
+                 shallow_ops=len(ops), shallow_copies=sum(1 for o in ops if o['op'] == 'shallow'))
+        if fail:
+            ctx.fail(case, fail, site='shallow-copy')
+        reqs.append(('shallowHistory', {'ds': ds0, 'ops': ops}))
+        pending.append((case, ('ok', [sorted(_ds_pairs(x)) for x in objs])))
+
+
+def _dict_mutated_key(ctx, objs, reqs, pending):
+    """d = {c: 1}, then a write to c: the entry keeps the old hash.  No oracle verdict (the property does not speak of keys that are
+    written to); the real dict is compared with the model (theorem counterexample_mutated_key_is_lost)."""
+    from copy import deepcopy
+    concepts = [(d, o) for d, o in objs if d['cls'] == 'concept' and d.get('variant', 0) % 2 == 0]
+    for idx in range(ctx.n(40, 400)):
+        r = ctx.rng('dict-mut', idx)
+        d0, c0 = r.choice(concepts)
+        c = deepcopy(c0)
+        old = deepcopy(c0)
+        dct = {c: 1}
+        before = _enc(c)
+        kw = r.choice(['CodeMeaning', 'CodingSchemeDesignator', 'CodingSchemeVersion', [k for k in CODE_KWS if k in c][0]])
+        setattr(c, kw, r.choice(['changed', 'SCT', '99HDV', '2.0', 'A', 'BB']))
+        # CPython compares identity BEFORE the stored hash: whether the very key object is still found depends on whether the probe
+        # sequence of its new hash happens to reach the old slot - recorded, not compared; the model speaks of DISTINCT objects
+        st_self, v_self = _try(dct.get, c)
+        ctx.hist('dict_mutated_self_found', str(v_self) if st_self == 'ok' else 'raised')
+        probes = [deepcopy(c), old, r.choice(objs)[1]]
+        got = []
+        for p in probes:
+            st, v = _try(dct.get, p)
+            got.append(['ok', v] if st == 'ok' else ['err', _kind(v)])
+        case = {'what': 'dict-mutated-key', 'idx': idx, 'concept': d0, 'written': kw}
+        ctx.case(nontrivial_key=('dict-mut', kw, tuple(g[1] for g in got)), dict_mutated_attr=kw,
+                 dict_mutated_found=f'equal-to-new={got[0][1]} equal-to-old={got[1][1]}')
+        reqs.append(('dictMutatedKey', {'before': before, 'after': _enc(c), 'probes': [_enc(p) for p in probes]}))
+        pending.append((case, ('ok', got)))
+
+
 # ------------------------------------------------------------------ 8. operands that are no codes
 def _foreign(ctx, objs):
     """concept vs tuple / list / str / None / int / object(): `__eq__` leaves the code comparison (branch 1 of the regenerated
@@ -1003,6 +1086,14 @@ def _compare_inner(ctx, pending, answers, disagree):
             heap = [{'cls': c['cls'], 'ds': sorted(map(list, c['ds']))} for c in m['heap']]
             if steps != want_steps or heap != impl[1]['heap']:
                 disagree('L0', case, impl, {'steps': steps, 'heap': heap}, 'store history')
+        elif what == 'shallow-copy':
+            got = [sorted(map(list, x)) if x is not None else None for x in model[1]]
+            if got != impl[1]:
+                disagree('L0', case, impl, got, 'shallow copy history')
+        elif what == 'dict-mutated-key':
+            got = [['ok', x['ok']] if 'ok' in x else ['err', x['err']] for x in model[1]]
+            if [g[:1] + ([g[1]] if g[0] == 'ok' else []) for g in got] != [g[:1] + ([g[1]] if g[0] == 'ok' else []) for g in impl[1]]:
+                disagree('L0', case, impl, got, 'dict with a mutated key')
         elif what == 'file-strings':
             if sorted(map(list, model[1])) != impl[1]:
                 disagree('L0', case, impl, model, 'strings through a file')
@@ -1037,6 +1128,8 @@ def run(ctx):
     _store_histories(ctx, reqs, pending)
     _file_strings(ctx, reqs, pending)
     _foreign(ctx, objs)
+    _shallow_copies(ctx, reqs, pending)
+    _dict_mutated_key(ctx, objs, reqs, pending)
     answers = ctx.model(reqs)
     if answers is None:
         return
